@@ -39,7 +39,7 @@ def run(ctx):
     exes = {b: vlib.build_harness('drv.cpp', vlib.build_lib(b), 'spqlios-fma', b) for b in ('optim', 'debug')}
     cases = []  # (impl_line, model_line, build, meta)
     Ns = [1, 2, 4, 8, 16, 32, 64, 128, 256, 512, 1024, 2048]
-    kinds = ['rnd', 'ext', 'max', 'min', 'alt', 'bin']
+    kinds = ['rnd', 'ext', 'max', 'min', 'alt', 'bin', 'wrap', 'wrap4']
     def add(opc, N, p, a, b, c=None, mopc=None, builds=('optim',), meta=None):
         body = '%d %d %s %s' % (N, p, ' '.join(map(str, a)), ' '.join(map(str, b)))
         if c is not None: body += ' ' + ' '.join(map(str, c))
@@ -56,7 +56,16 @@ def run(ctx):
         # products
         for kind in kinds:
             if N >= 1024 and kind in ('max', 'alt') and not thorough: continue
-            a = vec(rng, N, 'bin' if kind == 'bin' else kind); b = vec(rng, N, 'rnd' if kind == 'bin' else kind)
+            if kind in ('wrap', 'wrap4'):
+                # non-zero integer polynomials whose sum of squares is a multiple of 2^32 (a norm accumulated in 32 bits says "zero")
+                if kind == 'wrap4' and N < 4: continue
+                a = [0] * N
+                if kind == 'wrap': a[rng.randrange(N)] = rng.choice([65536, -65536, -2**31, 2**17])
+                else:
+                    for pos in rng.sample(range(N), 4): a[pos] = rng.choice([32768, -32768])
+                b = vec(rng, N, 'rnd')
+            else:
+                a = vec(rng, N, 'bin' if kind == 'bin' else kind); b = vec(rng, N, 'rnd' if kind == 'bin' else kind)
             c = vec(rng, N, 'rnd')
             blds = ('optim', 'debug') if N <= 64 else ('optim',)
             add(6, N, 0, a, b, builds=blds, meta=('mul', a, b, None, 0))
@@ -67,6 +76,10 @@ def run(ctx):
             for p in (0, 1, -1, -2**31, 2**31 - 1, rng.randrange(-2**31, 2**31)):
                 add(2, N, p, a, b, meta=('lin', a, b, p)); add(3, N, p, a, b, meta=('lin', a, b, -p))
                 add(22, N, p, a, b, mopc=2, meta=('lin', a, b, p)); add(23, N, p, a, b, mopc=3, meta=('lin', a, b, -p))
+                if kind in ('rnd', 'ext'):     # overlapping operands: result = poly2, result = poly1, poly1 = poly2 (oracle only: the model has no aliasing)
+                    for opc, aa, bb, pp in ((102, a, b, p), (103, a, b, -p), (112, a, b, p), (113, a, b, -p), (122, a, a, p), (123, a, a, -p)):
+                        body = '%d %d %s %s' % (N, p, ' '.join(map(str, a)), ' '.join(map(str, b)))
+                        cases.append(('poly %d %s' % (opc, body), None, 'optim', ('lin', aa, bb, pp)))
     # exhaustive basis pairs for small N: bilinear check X^i * X^j
     for N in (1, 2, 4, 8, 16):
         for i in range(N):
@@ -78,7 +91,7 @@ def run(ctx):
     for bld in ('optim', 'debug'):
         idx = [i for i, c in enumerate(cases) if c[2] == bld]
         for i, o in zip(idx, vlib.run_lines(exes[bld], [cases[i][0] for i in idx], timeout=1800)): impl[i] = o
-    mlines = sorted(set(c[1] for c in cases))
+    mlines = sorted(set(c[1] for c in cases if c[1] is not None))
     mo = dict(zip(mlines, vlib.run_model(mlines, 'fast', timeout=1800)))
     xs = [l for l in mlines if len(l) < 1500][:: 40]
     for l, o in zip(xs, vlib.run_model(xs, 'pure')):
@@ -90,7 +103,7 @@ def run(ctx):
         o = impl[i]
         fail = oracle(c[3], o)
         if fail: ctx.report('poly-wrong', '%s build: %s on %s...' % (c[2], fail, c[0][:90]), {'case': c[0][:60000], 'build': c[2], 'impl': o[:4000], 'why': fail})
-        if o.strip() != mo[c[1]].strip():
+        if c[1] is not None and o.strip() != mo[c[1]].strip():
             ndis += 1
             ctx.soft('correspondence:poly-op%s' % c[0].split()[1], '%s build and model disagree on %s...' % (c[2], c[0][:90]),
                      {'case': c[0][:60000], 'model_case': c[1][:200], 'build': c[2], 'impl': o[:4000], 'model': mo[c[1]][:4000]})
